@@ -7,9 +7,9 @@ ROOT = os.path.dirname(os.path.dirname(os.path.abspath(__file__)))
 
 # id -> (decided clauses, not decided, technique, design section)
 P = {
- "C01": ("panic/exit/blocking obligations (index, slice, nil dereference of absent IEs, unchecked type assertion, Fatal/panic/os.Exit, blocking channel operation) on every repo function reachable from the PFCP receive path, each discharged by a dominating guard, an interval/difference-bound argument, a who-writes fact or a library post-condition; drop-or-answer shape of the dispatcher",
-         "that a later valid request is processed normally (state semantics); panics inside third-party libraries beyond the frozen post-condition table",
-         "obligation/discharge over SSA: available-load value numbering + difference-bound (ABCD-style) prover + nil/typestate dominance", "4 C01"),
+ "C01": ("panic/exit/blocking obligations (index, slice, nil dereference of absent IEs, of error values on the success path, of pointer map elements read without the presence bit and of nullable repo fields, unchecked type assertion, Fatal/panic/os.Exit, blocking channel operation) on every repo function reachable from the PFCP receive path, each discharged by a dominating guard, an interval/difference-bound argument, a who-writes fact, a callee post-condition or a library post-condition; drop-or-answer shape of the dispatcher; the reader goroutine ends only on timeout/closed socket and dispatches every datagram it read; Prometheus label values are peer-free or sanitised",
+         "that a later valid request is processed normally (state semantics); panics inside third-party libraries beyond the frozen post-condition and panicking-API tables",
+         "obligation/discharge over SSA: available-load value numbering + difference-bound (ABCD-style) prover + nil/typestate dominance + provenance of label values", "4 C01"),
  "C02": ("request→response constructor pairing over the dispatch switch, sequence-number and SEID provenance of every response constructor, who-may-send, accepted-establishment content, non-zero UP SEID guard, responses never answered",
          "counting responses over whole histories (follows from the per-dispatch structure)",
          "CFG path rules + provenance slices on SSA", "4 C02"),
@@ -22,51 +22,51 @@ P = {
  "C05": ("acquire/release pairing on every session-ending path and every failing establishment path for the resource classes (gauge unit, store record, UE IP, TEID, datapath entries, UP4 cells/ids); aliasing of the stored rule slices",
          "'N attach/detach cycles never exhaust a pool' as an arithmetic fact (a consequence of pairing)",
          "typestate (acquire/release) on the SSA CFG with call-graph reachability", "4 C05"),
- "C06": ("every access to the pool state holds the pool mutex (must-lockset), pool state is touched only by the pool's methods, the allocation-trigger predicate is satisfiable (constant-comparison contradiction rule), size check dominates the trim",
-         "in-range / exclusive / sticky / conserved as data-structure invariants over runtime contents",
-         "must-lockset dataflow + encapsulation (who-may-access) + bit-mask contradiction rule", "4 C06"),
- "C07": ("lockset on the TEID generator state, TEID non-zero and cursor-in-range by interval evaluation of Allocate/updateOffset from the constants, SEID candidate checked against the store before use with a bounded retry loop and tested result, reported TEID = programmed TEID (single-copy provenance)",
-         "uniqueness across the whole history (needs the used-set invariant); non-zero SEID is reported under C02",
-         "must-lockset + interval evaluation + dominance + provenance", "4 C07"),
- "C08": ("no store to the PDR's application filter on any path that returns the bad-filter error, only the bad-filter error is tolerated by parsePDR, core/access mirror symmetry of the orientation code, verbatim copy for PFD-backed filters with a direction predicate, PFD table reset-then-fill with rollback on every rejecting exit, parser panic obligations",
-         "that the filter means the text (round trip over an infinite language)",
-         "CFG path rules + sibling (mirror) diff + obligation/discharge", "4 C08"),
+ "C06": ("must-lockset on the pool state (exclusive for writes, own object) with balanced methods, atomic sections (no check-then-act across an unlock), encapsulation, constructor shape (ordered complete enumeration of private copies, size check dominates the [1:len-1] trim), sticky/refusal/dequeue/enqueue provenance of the two operations, allocation-trigger table over all 256 flag values, who may release (session-ending sites only, by SEID on the establishment abort) and release only after an accepted datapath delete",
+         "in-range / exclusive / conserved as invariants over the runtime contents of the two containers (they follow from the rules by an induction the checker does not mechanise); the carry arithmetic of inc()",
+         "must-lockset dataflow + atomic-section dependence + who-may-call + decision table by exhaustive evaluation", "4 C06"),
+ "C07": ("must-lockset and atomic sections on the TEID generator, interval invariant of the cursor (least interval closed under the writers, uint32 semantics) and TEID \u2208 [1,2^32-1] without wrap under it, Allocate marks/returns exactly the offset found free and fails only after a full cycle, matching decode in FreeID/IsAllocated, generator and used-set never replaced, who may free a TEID and only after an accepted delete, SEID candidate \u2260 0 and looked up in the association's store before use with a bounded loop and tested result, reported TEID = programmed TEID, every PDR-creating handler serves the CHOOSE flag",
+         "uniqueness across the whole history as such (follows from the rules by induction on the used-set, not mechanised); quality of the random source",
+         "must-lockset + interval abstract interpretation of one field + dominance + provenance + who-may-call", "4 C07"),
+ "C08": ("parser crash obligations incl. narrowing conversions in the tokenizer, no filter field written on any path that returns an error, only errBadFilterDesc tolerated by parsePDR, every tokenizer error reaches the result, core/access orientation table and its mirror, port work-around, PFD-backed filters copied verbatim under the direction predicate with the first match deciding, UE-address pre-fill, 'any'/'assigned' rewrite table, PFD table reset-then-fill with roll-back on every rejecting exit and a fresh map, per-application description lists",
+         "that the filter means the text for every string of the grammar (round trip over an infinite language); net.ParseCIDR/strconv semantics",
+         "CFG path rules + provenance tables + sibling (mirror) diff + obligation/discharge", "4 C08"),
  "C09": ("rate factor ×125 with exact division by constant-factor extraction (BESS cir/pir, UP4 pir), gate decision table per direction, burst floor takes the configured value of the same name (sibling agreement), QFI→TC provenance, qosLevel routes the table in add and delete",
          "which QER MarkSessionQer labels (an algorithm over list shapes)",
          "constant-factor extraction + decision tables + sibling agreement on SSA", "4 C09"),
- "C10": ("close-at-most-once of the association's shutdown channel, only-the-closer-sends on a closed channel, range-over-channel has a preceding close, the stop path joins associations before Exit, Shutdown forgets the association on every path",
-         "exactly-once under every interleaving beyond these typestate rules; bounded time",
-         "channel typestate + goroutine-context call graph", "4 C10"),
- "C11": ("static lockset (Eraser-style): every field of the datapath objects shared by per-association goroutines that is written after construction has a common mutex over all its accesses; per-request BESS fan-out is joined on every worker path",
-         "linearizability of compound operations",
-         "must-lockset over goroutine contexts", "4 C11"),
- "C12": ("retransmission loop bound (1+N sends, same message object), pending-request store/delete pairing and key agreement, dead-only-after-timeout dominance, single writer of the local recovery time stamp and its provenance in every response, accept⇔connected decision table, feature-bit table",
+ "C10": ("channel typestate (close at most once incl. path-sensitive re-reachability, no send on a channel that is closed anywhere, range needs a close elsewhere/before) with an embedded self-test fixture, idempotent teardown through the connection's sync.Once with its five effects on every path and in order, no blocking wait in the teardown's synchronous tree, the goroutine that drains the completion channel never tears down itself, every trigger reaches Shutdown, forgetting (address received = key deleted, own store per connection, delete key = store key, no zombie after a first-message release), stop sequence (cancel \u2192 stop accepting \u2192 bounded join \u2192 datapath Exit \u2192 close(done)), record removed only after an accepted delete, session records added only where teardown cannot miss them",
+         "exactly-once under every interleaving beyond these typestate/ordering rules; bounded time beyond 'every stop-path wait has a timer alternative'",
+         "channel typestate + must-pass/dominance on the SSA CFG + goroutine-context call graph", "4 C10"),
+ "C11": ("static lockset (Eraser's discipline) over goroutine contexts for every field path of the objects shared between goroutines, with structurally checked exemptions (fresh object, start-up code, constructor extent, pre-publication, fork ordering, per-connection confinement); balanced locking of every function; atomic sections for the shared UP4 objects; BESS fan-out (per-call completion channel, one goroutine per rule, at most one completion per worker path, join count); math/rand generators per connection; add/remove reference-key agreement of shared UP4 objects",
+         "linearizability of compound operations beyond the atomic-section rule; instances of a struct type are not distinguished except by the per-instance root table; start-up races; the HTTP handlers among themselves",
+         "must-lockset dataflow (intra- and interprocedural entry locksets) over goroutine contexts + sibling agreement", "4 C11"),
+ "C12": ("retransmission loop bound (1+N sends, same message object), pending-request store/delete pairing and key agreement, dead-only-after-timeout dominance, single writer of the local recovery time stamp and its provenance in every response, accept\u21d4connected decision table with 'connected' meaning channel state READY, feature-bit table, every datagram from an unknown peer creates a connection and is dispatched, every consumed heartbeat reset resets the ticker",
          "real-time spacing, loss patterns",
-         "loop-shape rule + provenance + decision tables on SSA", "4 C12"),
- "C13": ("report construction provenance (CP SEID, fresh sequence number, downlink PDR id), send dominated by session lookup / notify-flag / pdr-found checks, rate-limiter decision table (first report passes), listener panic obligations",
-         "once-per-interval in wall-clock time",
-         "provenance + dominance + decision table", "4 C13"),
- "C14": ("end marker built from the stored (old) FAR not the new one, guarded by the flag and the id match, at most one per matching FAR, sole caller, flag parsing (SNDEM bit, reset, update-only), emission only after the successful update and only when enabled, packet field mapping",
+         "loop-shape rule + provenance + decision tables + must-pass on the SSA CFG", "4 C12"),
+ "C13": ("send reachable only with a stored session, a downlink PDR and the NOCP bit of the FAR that PDR points to (no other deciding condition), message content provenance (fresh sequence number from a counter every access to which holds its lock, DLDR only, stored remote SEID kept current by the modification handler, PDR id), rate-limiter decision table with re-arm from time.Now(), one notifier per listener, dispatch of the received F-SEID, listener crash obligations",
+         "'at most one per interval' as a statement about wall-clock time; whether the datapath produces a report",
+         "dominance + provenance + path-enumerated decision table + lockset on one counter", "4 C13"),
+ "C14": ("end marker built from the stored (old) FAR, guarded by the flag and the id match, at most one per matching FAR and exactly one all the way to the sender queue (no marker-less exit of addEndMarker except on a serialisation error, plain send of every list element), sole callers, flag written on every successful parse from the SNDEM bit only, per-element scratch FAR, emission only after the successful update and only when enabled, packet field mapping, fresh serialize buffer",
          "the serialised bytes (gopacket behaviour)",
-         "provenance + dominance + who-may-call", "4 C14"),
- "C15": ("pool purity (a value released into pool P was allocated from P), release only after the last fallible write that still references the id, release-on-error releases exactly what this call allocated, every failing P4 write reaches a rejection",
+         "provenance + dominance + must-pass + who-may-call", "4 C14"),
+ "C15": ("pool purity, release only after the last fallible write that still references the id, release-on-error releases exactly what this call allocated, every failing P4 write reaches a rejection (status filter: only OK/ALREADY_EXISTS tolerated, empty list is a failure), ownership: application references are given up only on the DELETE path and up4.p4client (whose absence makes tryConnect refill every pool) is only assigned a successfully created client",
          "multi-fault sequences as such (rules are per-site and fault-position independent)",
          "provenance (pool pairing) + dominance/ordering + error-propagation on SSA", "4 C15"),
- "C16": ("every table/field/match-kind/width/action/param-set/priority/index obligation of every builder path against the shipped P4Info; constants ↔ P4Info; generator determinism",
-         "values whose bound is a stated assumption of the property (QFI ≤ 63, slice ≤ 15, TC ≤ 3) are recorded as assumptions, not proved",
+ "C16": ("every table/field/match-kind/width/action/param-set/priority/index obligation of every builder path against the shipped P4Info; constants \u2194 P4Info; generator determinism; every PDR that reaches a priority-carrying builder was verified (in the orchestrator or by every non-DELETE caller over the whole list)",
+         "values whose bound is a stated assumption of the property (QFI \u2264 63, slice \u2264 15, TC \u2264 3) are recorded as assumptions, not proved",
          "builder-path enumeration against the parsed P4Info (cross-artifact agreement) + interval argument for priority", "4 C16"),
- "C17": ("range classification is a partition (exhaustive evaluation over the order classes of low/high/0/65535), refusal returns no rules, Cartesian-product dispatch table, exact-expansion loop shape, width check without wrap, inverted ranges rejected before construction",
+ "C17": ("range classification is a partition (exhaustive evaluation over the order classes of low/high/0/65535), refusal returns no rules, Cartesian-product dispatch table, exact-expansion loop shape with a 32-bit induction variable, width check without wrap, inverted ranges rejected before construction, bounded unsigned port parse, every conversion error refuses the pair, the BESS writers install exactly the expansion of the PDR's two ranges and nothing after a refusal",
          "cover exactness of the Ternary strategy (bit arithmetic; not on the production path)",
-         "predicate abstraction over order classes + decision table + induction-variable shape", "4 C17"),
- "C18": ("defaults-then-validate on every success path with the documented constants, consumer⊆validator agreement for every fatal parse, mode decision table, loader panic obligations",
-         "comment stripping on arbitrary bytes; that every shipped sample loads (needs execution; the pinned suite does it)",
-         "CFG ordering rules + constant evaluation + sibling agreement", "4 C18"),
- "C19": ("exactly one HTTP response on every path with the right status class, datapath programming only on the decoded PUT/POST path, unit→factor table by constant-factor extraction, field provenance from the posted document into the BESS and UP4 meter arguments",
+         "predicate abstraction over order classes + decision table + induction-variable shape + error propagation", "4 C17"),
+ "C18": ("loader ordering (validated value = returned value, zero Conf on errors), default table with the documented constants and guards, validator facts (parser \u00d7 field \u00d7 condition) derived from validateConf's CFG, mode set \u2286 conf/ports.py, consumer\u2286validator for every process-ending parse, loader crash obligations (incl. method calls on nil errors), structure of the comment pattern from its regexp/syntax tree, shipped samples agree with the struct's JSON kinds and the validator's facts",
+         "behaviour of encoding/json, regexp and time.ParseDuration themselves; 'every sample loads' beyond the cross-artifact agreement; NewIPPool's own size limit",
+         "CFG ordering rules + fact derivation by cut-reachability + regexp syntax-tree inspection + cross-artifact agreement", "4 C18"),
+ "C19": ("exactly one HTTP response on every path with the right status class, datapath programming only on the decoded PUT/POST path, whole-document decode into a per-request value, unit\u2192factor table by constant-factor extraction, field provenance from the posted document into the BESS and UP4 meter arguments",
          "arithmetic at the 63-bit edge; what the datapath does with the values",
          "path enumeration on the SSA CFG + constant-factor extraction + provenance slices", "4 C19"),
- "C20": ("create/delete module-name agreement, pending-route container multiplicity per next hop, delete path cleans every container the add path fills, handlers only under the lock, gate counter monotonic",
-         "the refinement between netlink event history and module graph",
-         "Python ast rules (call-graph over self. methods, container read/write sets, sibling agreement)", "4 C20"),
+ "C20": ("module-name agreement under one normal form (helpers inlined), pending routes kept per next hop as a collection and all installed on resolution with no early exit, delete path cleans every container the add path fills and never leaves before the neighbor-cache branch, every entry into state-changing methods under the lock, gate counter monotonic and consumed exactly with a new neighbor entry, link_modules argument binding, reference count \u00b11 with destroy/forget exactly at zero, MAC present before programming",
+         "the refinement between an arbitrary netlink event history and the module graph; duplicate RTM_NEWROUTE events; the SIGHUP reconfigure path",
+         "Python ast rules: normal-form comparison, container read/write sets, lexical lock regions, argument binding", "4 C20"),
 }
 
 def main():
